@@ -76,6 +76,11 @@ def dec(t):
     return {k: dec(x) for k, x in t["o"]}
 
 
+def dec_plain(t):
+    """canonical tagged dump -> plain JSON-native Python (for re-validation with jsonschema)"""
+    return dec(t)
+
+
 def strings_of(v, out: set):
     if isinstance(v, str):
         out.add(v)
@@ -148,6 +153,9 @@ def make_env(*values) -> dict:
         strings_of(v, ss)
     ss.add(default_version())
     ss = {s for s in ss if "\x00" not in s}
+    # close the table under normalisation (a dump carries the normalised names)
+    ss |= {n for n in (np_name(s) for s in ss) if n and not n.startswith("WEIRD:")}
+    ss |= set(DTYPES_OK)
     return {"vok": sorted(s for s in ss if pattern_ok(s)),
             "np": [[s, np_name(s)] for s in sorted(ss)],
             "dv": default_version(), "offchk": _OFFCHK[0]}
